@@ -8,7 +8,11 @@ work=$(mktemp -d /tmp/mut-XXXXXX) || exit 9
 trap 'rm -rf "$work"; rm -f /verif/.build/*-alt$$.test /verif/.build/alt-$$.mod /verif/.build/alt-$$.sum' EXIT
 rsync -a --exclude .git /repo/ "$work/repo/"
 cd "$work/repo" || exit 9
-if ! git apply "$patch" 2>"$work/apply.err"; then echo "patch does not apply: $patch"; cat "$work/apply.err"; exit 9; fi
+if ! git apply "$patch" 2>"$work/apply.err"; then
+  # older patches carry context that unrelated repairs have since touched: let patch(1) place them with a little fuzz
+  if patch -p1 --fuzz=2 -s -f --no-backup-if-mismatch < "$patch" >"$work/apply2.err" 2>&1; then find . -name '*.orig' -delete
+  else echo "patch does not apply: $patch"; cat "$work/apply.err"; exit 9; fi
+fi
 if ! go build ./... ; then echo "MUTANT-DOES-NOT-COMPILE"; exit 8; fi
 if [[ "$*" == *--suite* ]]; then
   if go test -vet=off -count=1 -timeout 120s ./... >"$work/suite.log" 2>&1; then echo "suite: PASS (mutant survives the repository tests)"; else echo "suite: FAIL (mutant is caught by the repository tests)"; grep -E "^(--- FAIL|FAIL|panic)" "$work/suite.log" | head -5; fi
